@@ -318,133 +318,141 @@ Definition transform_export_spec (d : datum) : res export_spec :=
 
 (** transform_to_statement and the forms it dispatches to, on one fuel (macro expansion
     need not terminate) *)
+(** one level of transform_to_statement; [rec] transforms the sub-forms (the same function with
+    less fuel) *)
+Definition to_expr_with (rec : datum -> M stmt) (x : datum) : M expr :=
+  dom s <- rec x ;;
+  match s with SExpr e => ret e | _ => lift (err ExpectSomething) end.
+
+(** a procedure body: definitions first, then at least one expression *)
+Fixpoint body_go (rec : datum -> M stmt) (ds : list datum) (defs : list (str * expr * loc)) (exprs : list expr)
+  : M (list (str * expr * loc) * list expr) :=
+  match ds with
+  | [] => match exprs with
+          | [] => lift (err LambdaBodyNoExpression)
+          | _ => ret (rev defs, rev exprs)
+          end
+  | x :: r =>
+      dom s <- rec x ;;
+      match s with
+      | SDef n e l =>
+          match exprs with
+          | [] => body_go rec r ((n, e, l) :: defs) exprs
+          | _ => lift (lerr InvalidDefinitionContext l)
+          end
+      | SExpr e => body_go rec r defs (e :: exprs)
+      | _ => lift (lerr ExpectSomething (dloc x))
+      end
+  end.
+Definition body_with (rec : datum -> M stmt) (ds : list datum) : M (list (str * expr * loc) * list expr) :=
+  body_go rec ds [] [].
+
+Definition transform_step (rec : datum -> M stmt) (d : datum) : M stmt :=
+  let l := dloc d in
+  match d with
+  | DPrim p _ => ret (SExpr (EPrim p l))
+  | DSym s _ => ret (SExpr (ESym s l))
+  | DVec _ _ => ret (SExpr (EDatum d l))
+  | DNil _ => lift (err EmptyCall)
+  | DCons first rest _ =>
+      if negb (is_pair_datum rest) then lift (err ExpectSomething)
+      else
+        let items := datum_items rest in
+        let call : M stmt :=
+          dom fe <- (to_expr_with rec) first ;;
+          dom args <- mapMM (to_expr_with rec) items ;;
+          ret (SExpr (ECall fe args l)) in
+        match first with
+        | DSym kw _ =>
+            if str_eqb kw k_define then
+              dom x <- lift (next_or_end items) ;;
+              let '(fst_d, r) := x in
+              match fst_d with
+              | DSym name _ =>
+                  dom y <- lift (next_or_end r) ;;
+                  let '(bd, _) := y in
+                  dom e <- (to_expr_with rec) bd ;;
+                  ret (SDef name e l)
+              | DCons nm fm_d _ =>
+                  dom name <- lift (transform_identifier nm) ;;
+                  dom fm <- lift (transform_formals fm_d) ;;
+                  dom b <- body_with rec r ;;
+                  let '(defs, exprs) := b in
+                  ret (SDef name (ELambda fm defs exprs (dloc nm)) l)
+              | DNil fl => lift (lerr InvalidDefinition fl)
+              | other => lift (lerr DefineNonSymbol (dloc other))
+              end
+            else if str_eqb kw k_define_library then
+              dom x <- lift (next_or_end items) ;;
+              let '(nd, decls) := x in
+              dom nl <- lift (expect_list nd) ;;
+              dom name <- lift (mapM transform_library_name_part (datum_items nl)) ;;
+              dom ds <- mapMM (fun dd : datum =>
+                  let dl := dloc dd in
+                  dom ll <- lift (expect_list dd) ;;
+                  let its := datum_items ll in
+                  dom h <- lift (next_or_end its) ;;
+                  let '(hd0, r) := h in
+                  match hd0 with
+                  | DSym s _ =>
+                      if str_eqb s k_export then
+                        dom sp <- lift (mapM transform_export_spec r) ;; ret (LDExport sp dl)
+                      else if str_eqb s k_begin then
+                        dom st <- mapMM (rec) r ;; ret (LDBegin st dl)
+                      else dom im <- lift (transform_import_decl r) ;; ret (LDImport im dl)
+                  | _ => dom im <- lift (transform_import_decl r) ;; ret (LDImport im dl)
+                  end) decls ;;
+              ret (SLibrary name ds l)
+            else if str_eqb kw k_lambda then
+              dom x <- lift (next_or_end items) ;;
+              let '(fm_d, r) := x in
+              dom fm <- lift (transform_formals fm_d) ;;
+              dom b <- in_child (body_with rec r) ;;
+              let '(defs, exprs) := b in
+              ret (SExpr (ELambda fm defs exprs l))
+            else if str_eqb kw k_if then
+              dom x <- lift (next_or_end items) ;; let '(td, r) := x in
+              dom te <- (to_expr_with rec) td ;;
+              dom y <- lift (next_or_end r) ;; let '(cd, r2) := y in
+              dom ce <- (to_expr_with rec) cd ;;
+              match r2 with
+              | [] => ret (SExpr (EIf te ce None l))
+              | ad :: _ => dom ae <- (to_expr_with rec) ad ;; ret (SExpr (EIf te ce (Some ae) l))
+              end
+            else if str_eqb kw k_import then
+              dom sets <- lift (transform_import_decl items) ;; ret (SImport sets l)
+            else if str_eqb kw k_quote then
+              dom x <- lift (next_or_end items) ;; let '(q, _) := x in
+              ret (SExpr (EQuote q l))
+            else if str_eqb kw k_set then
+              dom x <- lift (next_or_end items) ;; let '(sd, r) := x in
+              match sd with
+              | DSym name _ =>
+                  dom y <- lift (next_or_end r) ;; let '(bd, _) := y in
+                  dom e <- (to_expr_with rec) bd ;;
+                  ret (SExpr (ESet name e l))
+              | _ => lift (err DefineNonSymbol)
+              end
+            else if str_eqb kw k_define_syntax then
+              dom x <- lift (next_or_end items) ;; let '(kd, r) := x in
+              dom keyword <- lift (transform_identifier kd) ;;
+              dom y <- lift (next_or_end r) ;; let '(td, _) := y in
+              dom tr <- lift (transform_transformer keyword td) ;;
+              fun e => (Ok (SSyntaxDef keyword tr l), senv_define e keyword tr)
+            else
+              fun e =>
+                match senv_get e kw with
+                | Some tr =>
+                    (dom ex <- lift (transform_use tr (set_dloc rest l)) ;;
+                     rec (set_dloc ex (loc_or (dloc ex) l))) e
+                | None => call e
+                end
+        | _ => call
+        end
+  end.
+
 Fixpoint transform_stmt (fuel : nat) (d : datum) : M stmt :=
   match fuel with
   | O => lift OutOfFuel
-  | S f =>
-      let to_expr (x : datum) : M expr :=
-        dom s <- transform_stmt f x ;;
-        match s with SExpr e => ret e | _ => lift (err ExpectSomething) end in
-      let body (ds : list datum) : M (list (str * expr * loc) * list expr) :=
-        (fix go (ds : list datum) (defs : list (str * expr * loc)) (exprs : list expr)
-           : M (list (str * expr * loc) * list expr) :=
-           match ds with
-           | [] => match exprs with
-                   | [] => lift (err LambdaBodyNoExpression)
-                   | _ => ret (rev defs, rev exprs)
-                   end
-           | x :: r =>
-               dom s <- transform_stmt f x ;;
-               match s with
-               | SDef n e l =>
-                   match exprs with
-                   | [] => go r ((n, e, l) :: defs) exprs
-                   | _ => lift (lerr InvalidDefinitionContext l)
-                   end
-               | SExpr e => go r defs (e :: exprs)
-               | _ => lift (lerr ExpectSomething (dloc x))
-               end
-           end) ds [] [] in
-      let l := dloc d in
-      match d with
-      | DPrim p _ => ret (SExpr (EPrim p l))
-      | DSym s _ => ret (SExpr (ESym s l))
-      | DVec _ _ => ret (SExpr (EDatum d l))
-      | DNil _ => lift (err EmptyCall)
-      | DCons first rest _ =>
-          if negb (is_pair_datum rest) then lift (err ExpectSomething)
-          else
-            let items := datum_items rest in
-            let call : M stmt :=
-              dom fe <- to_expr first ;;
-              dom args <- mapMM to_expr items ;;
-              ret (SExpr (ECall fe args l)) in
-            match first with
-            | DSym kw _ =>
-                if str_eqb kw k_define then
-                  dom x <- lift (next_or_end items) ;;
-                  let '(fst_d, r) := x in
-                  match fst_d with
-                  | DSym name _ =>
-                      dom y <- lift (next_or_end r) ;;
-                      let '(bd, _) := y in
-                      dom e <- to_expr bd ;;
-                      ret (SDef name e l)
-                  | DCons nm fm_d _ =>
-                      dom name <- lift (transform_identifier nm) ;;
-                      dom fm <- lift (transform_formals fm_d) ;;
-                      dom b <- body r ;;
-                      let '(defs, exprs) := b in
-                      ret (SDef name (ELambda fm defs exprs (dloc nm)) l)
-                  | DNil fl => lift (lerr InvalidDefinition fl)
-                  | other => lift (lerr DefineNonSymbol (dloc other))
-                  end
-                else if str_eqb kw k_define_library then
-                  dom x <- lift (next_or_end items) ;;
-                  let '(nd, decls) := x in
-                  dom nl <- lift (expect_list nd) ;;
-                  dom name <- lift (mapM transform_library_name_part (datum_items nl)) ;;
-                  dom ds <- mapMM (fun dd : datum =>
-                      let dl := dloc dd in
-                      dom ll <- lift (expect_list dd) ;;
-                      let its := datum_items ll in
-                      dom h <- lift (next_or_end its) ;;
-                      let '(hd0, r) := h in
-                      match hd0 with
-                      | DSym s _ =>
-                          if str_eqb s k_export then
-                            dom sp <- lift (mapM transform_export_spec r) ;; ret (LDExport sp dl)
-                          else if str_eqb s k_begin then
-                            dom st <- mapMM (transform_stmt f) r ;; ret (LDBegin st dl)
-                          else dom im <- lift (transform_import_decl r) ;; ret (LDImport im dl)
-                      | _ => dom im <- lift (transform_import_decl r) ;; ret (LDImport im dl)
-                      end) decls ;;
-                  ret (SLibrary name ds l)
-                else if str_eqb kw k_lambda then
-                  dom x <- lift (next_or_end items) ;;
-                  let '(fm_d, r) := x in
-                  dom fm <- lift (transform_formals fm_d) ;;
-                  dom b <- in_child (body r) ;;
-                  let '(defs, exprs) := b in
-                  ret (SExpr (ELambda fm defs exprs l))
-                else if str_eqb kw k_if then
-                  dom x <- lift (next_or_end items) ;; let '(td, r) := x in
-                  dom te <- to_expr td ;;
-                  dom y <- lift (next_or_end r) ;; let '(cd, r2) := y in
-                  dom ce <- to_expr cd ;;
-                  match r2 with
-                  | [] => ret (SExpr (EIf te ce None l))
-                  | ad :: _ => dom ae <- to_expr ad ;; ret (SExpr (EIf te ce (Some ae) l))
-                  end
-                else if str_eqb kw k_import then
-                  dom sets <- lift (transform_import_decl items) ;; ret (SImport sets l)
-                else if str_eqb kw k_quote then
-                  dom x <- lift (next_or_end items) ;; let '(q, _) := x in
-                  ret (SExpr (EQuote q l))
-                else if str_eqb kw k_set then
-                  dom x <- lift (next_or_end items) ;; let '(sd, r) := x in
-                  match sd with
-                  | DSym name _ =>
-                      dom y <- lift (next_or_end r) ;; let '(bd, _) := y in
-                      dom e <- to_expr bd ;;
-                      ret (SExpr (ESet name e l))
-                  | _ => lift (err DefineNonSymbol)
-                  end
-                else if str_eqb kw k_define_syntax then
-                  dom x <- lift (next_or_end items) ;; let '(kd, r) := x in
-                  dom keyword <- lift (transform_identifier kd) ;;
-                  dom y <- lift (next_or_end r) ;; let '(td, _) := y in
-                  dom tr <- lift (transform_transformer keyword td) ;;
-                  fun e => (Ok (SSyntaxDef keyword tr l), senv_define e keyword tr)
-                else
-                  fun e =>
-                    match senv_get e kw with
-                    | Some tr =>
-                        (dom ex <- lift (transform_use tr (set_dloc rest l)) ;;
-                         transform_stmt f (set_dloc ex (loc_or (dloc ex) l))) e
-                    | None => call e
-                    end
-            | _ => call
-            end
-      end
+  | S f => transform_step (transform_stmt f) d
   end.
